@@ -194,4 +194,25 @@ pub fn run_case(ctx: &mut Ctx, fam: &str, k: u64, r: &mut Rng) {
             ctx.violation(&format!("C06|{}|panic:{}", cell, panic_class(&msg)), format!("conv {} panicked: {}", desc, msg));
         }
     }
+    // the same image array again, with filters of the transposed shape (same element count, same strides): whatever the
+    // first call worked out about the image belongs to that call
+    if fr != fc && fc <= h && fr <= w && fam != "nonfinite" {
+        let df2 = vec![cnt, d, fc, fr];
+        let tf2: T<f64> = T::from_f64(&df2, &vf);
+        if let Some(want2) = T::conv(&ti, &tf2, sr, sc) {
+            let fil2 = arr(&df2, &vf);
+            ctx.count("second_conv_on_the_same_image", 1);
+            match guard(|| {
+                let r = img.conv(&fil2, (sr, sc));
+                (r.dimensions().to_vec(), vals(&r))
+            }) {
+                Ok((gd, gv)) => {
+                    if let Err((kind, detail)) = compare(&gd, &gv, &want2, Rule::Exact) {
+                        ctx.violation(&format!("C06|{}|same-image-other-filters|wrong-{}", cell, kind), format!("conv of the same image array with filters {:?} right after filters {:?}: {}\nimage={} filters={}", df2, df, detail, short(&vi), short(&vf)));
+                    }
+                }
+                Err(msg) => ctx.violation(&format!("C06|{}|same-image-other-filters|panic:{}", cell, panic_class(&msg)), format!("second conv on the same image panicked: {}", msg)),
+            }
+        }
+    }
 }
